@@ -9,6 +9,11 @@
 
 using namespace pbt;
 
+// Memory footprint: rapidcheck's deep, varying call chains make ASan's stack depot grow by ~3 KB per 1000 cases with
+// the default 30-frame allocation stacks, and the default 256 MB free-quarantine is pointless for these pure functions.
+// (Defaults only: anything set in the ASAN_OPTIONS environment by ./check wins.  Error stacks themselves stay complete.)
+extern "C" const char *__asan_default_options() { return "malloc_context_size=6:quarantine_size_mb=32"; }
+
 [[noreturn]] static void harness_error(const std::string &m) {
   fprintf(stderr, "HARNESS-ERROR (C02): %s\n", m.c_str());
   fflush(stderr);
